@@ -12,6 +12,15 @@ theorem MILMsg_unpack_state_independent (t u : Msg) (buf : Bytes) (hk : sameKind
   repeat' split
   all_goals simp_all
 
+/-- non-vacuity (also of `MILMsg_pack_idempotent`): a message with RTC stamp and three data bytes packs, and a used
+    message object of the same time-stamp kind decodes it -/
+example :
+    let a : Msg := ⟨.rtc 77, 0xFFFF, 3, 0, [1, 2, 3]⟩
+    let t : Msg := ⟨.rtc 5, 1, 1, 9, [7, 7]⟩
+    sameKind t.ipts (Msg.fresh (.rtc 0)).ipts ∧
+    ∃ b, a.pack.2 = .ok b ∧ b.length = 17 ∧ (Msg.unpack t b).2 = .ok 17 ∧ (Msg.unpack t b).1 = a.pack.1 :=
+  ⟨by simp [sameKind, Msg.fresh], _, rfl, rfl, rfl, rfl⟩
+
 /-- `pack()` of a message only sets `length`; calling it again changes nothing -/
 theorem MILMsg_pack_idempotent (m : Msg) (b : Bytes) (h : m.pack.2 = .ok b) : m.pack.1.pack = m.pack := by
   revert h
@@ -94,5 +103,15 @@ theorem MIL_unpack_state_independent (t u : Packet) (buf : Bytes) (ho : t.ipts_s
   simp only [Packet.unpack, hp]
   repeat' split
   all_goals simp_all
+
+/-- non-vacuity (of `packMsgs_idempotent`, `MIL_pack_idempotent`, `MIL_unpack_state_independent`): a two-message
+    packet packs; a used packet object with the same time-stamp source decodes it and ends with two messages -/
+example :
+    let p : Packet := { messages := [⟨.rtc 1, 0, 0, 0, []⟩, ⟨.rtc 77, 0xFFFF, 3, 0, [1, 2, 3]⟩], msgcount := 2, ttb := 3,
+                        ipts_source := some 0 }
+    let t : Packet := { messages := [⟨.rtc 5, 1, 1, 2, [7, 7]⟩], msgcount := 1, ttb := 1, ipts_source := some 0 }
+    ∃ b, p.pack.2 = .ok b ∧ b.length = 35 ∧ (packMsgs p.messages).2 = .ok (b.drop 4) ∧
+      (Packet.unpack t b).2 = .ok () ∧ (Packet.unpack t b).1.messages.length = 2 :=
+  ⟨_, rfl, rfl, rfl, rfl, rfl⟩
 
 end Acra.Props.C13
